@@ -104,6 +104,7 @@ register('C18', [
 ], [
     'histories longer than the bound (the inductive step over symbolic n, alpha, beta, mu is not decidable as QF_FP within the caps)',
     'random_argmax / weighted (rejection sampling over generator output), DynamicSelective agent tables (std HashMap), remedian, Noise',
+    'variation criterion: the arithmetic of get_cv (mean, standard deviation, quotient) is an uninterpreted number per objective column; the time-period window (shuffle / retain / sort / drain over elapsed time) is outside - only the sample window is decided; is_termination phase gating (selection phase) is outside',
 ])
 
 register('C01', [
